@@ -2,6 +2,7 @@ package c16
 
 import (
 	"fmt"
+	"io"
 	"runtime"
 	"sort"
 	"strings"
@@ -12,6 +13,7 @@ import (
 
 	"github.com/inbucket/inbucket/v3/pkg/extension"
 	"github.com/inbucket/inbucket/v3/pkg/extension/event"
+	"github.com/inbucket/inbucket/v3/pkg/message"
 	"github.com/inbucket/inbucket/v3/pkg/policy"
 	"github.com/inbucket/inbucket/v3/pkg/storage"
 	"pgregory.net/rapid"
@@ -21,7 +23,7 @@ import (
 const pid = "C16"
 
 type Op struct {
-	K    string `json:"k"` // deliver remove purge scan
+	K    string `json:"k"` // deliver remove purge scan failadd (a store-level delivery whose content cannot be read to the end)
 	Box  int    `json:"box"`
 	N    int    `json:"n"`    // remove: which live message; scan: cutoff selector
 	Size int    `json:"size"` // deliver: body bytes
@@ -40,7 +42,7 @@ type Case struct {
 var boxes = []string{"one", "two", "three"}
 
 var opGen = rapid.Custom(func(t *rapid.T) Op {
-	k := rapid.SampledFrom([]string{"deliver", "deliver", "deliver", "deliver", "deliver", "remove", "remove", "purge", "scan"}).Draw(t, "k")
+	k := rapid.SampledFrom([]string{"deliver", "deliver", "deliver", "deliver", "deliver", "remove", "remove", "purge", "scan", "failadd"}).Draw(t, "k")
 	op := Op{K: k, Box: rapid.IntRange(0, 2).Draw(t, "box"), N: rapid.IntRange(0, 20).Draw(t, "n"),
 		Size: rapid.SampledFrom([]int{1, 50, 200, 400, 700, 1200}).Draw(t, "size")}
 	if k == "deliver" && rapid.IntRange(0, 2).Draw(t, "multi") == 0 {
@@ -135,7 +137,7 @@ func judge(stored, deleted []key, lv map[key]bool, deliveries map[string]int) st
 
 var prop = hx.Prop[Case]{
 	ID: pid, Name: "events",
-	Rule: "rapid-generated histories of 5-60 deliveries (through the manager), removes, purges and retention scans on mem (cap 0/1/2/3 x " +
+	Rule: "rapid-generated histories of 5-60 deliveries (through the manager), deliveries that fail in the store (content reader error), removes, purges and retention scans on mem (cap 0/1/2/3 x " +
 		"maxkb 0/1/2) and file (cap) stores, with listeners registered through the public extension.Host API on both after-events; oracle " +
 		"(order-free, after quiescence): exactly one stored event per delivery with distinct (mailbox,id); every deleted event names a " +
 		"message announced as stored, at most once, that is no longer in the store; stored minus deleted = exactly the messages " +
@@ -210,6 +212,17 @@ func run(c Case) *hx.Outcome {
 			if len(after) <= len(before) {
 				evicting = true
 			}
+		case "failadd":
+			// the content reader fails half way: the store must refuse the delivery, and a refused
+			// delivery is not an event (nor is anything it would have evicted gone)
+			d := &message.Delivery{
+				Meta:   event.MessageMetadata{Mailbox: box, Date: time.Now(), Subject: "fails", Size: int64(op.Size)},
+				Reader: io.MultiReader(strings.NewReader(strings.Repeat("y", op.Size/2)), hx.FailingReader{}),
+			}
+			if id, err := w.Store.AddMessage(d); err == nil {
+				o.Failf(pid+":failed-delivery-accepted", "step %d: AddMessage whose reader failed returned id %q and no error", i, id)
+			}
+			o.Class("a delivery that fails in the store")
 		case "remove":
 			ms, _ := w.Store.GetMessages(box)
 			if len(ms) > 0 {
